@@ -12,55 +12,55 @@ TRUST = ("Trusted base: go/types, go/ssa and the VTA/CHA call graphs of golang.o
 # id -> (technique, claim text, design_ref)
 CLAIMED = {
  "C10": ("SSA length-fact analysis (E-LEN): interval facts on len() from allocation, slicing, callee post-conditions, edge-sensitive branch conditions; induction patterns; reviewed-invariant table with re-checked guards; allocation provenance through call sites",
-         "Decides, for every slice/string index, slice expression, ByteOrder decode, bare assertion, explicit panic, division and make() size in the ~150 functions reachable from the reader goroutine (exhaustive over the current tree), that it cannot panic or over-allocate for any wire input: proved from length facts, or listed as a reviewed invariant whose guard is re-checked on every run; anything else is a violation, so a new unguarded access and the removal of an existing guard are both reported. The six call sites that size an allocation from a 32-bit wire length are recorded findings. Nil dereferences and panics inside the standard library are not decided.",
+         "Decides, for every slice/string index, slice expression, ByteOrder decode, bare assertion, explicit panic, division and make() size in the ~150 functions reachable from the reader goroutine (exhaustive over the current tree), that it cannot panic or over-allocate for any wire input: proved from length facts, or listed as a reviewed invariant whose guard is re-checked on every run (plus: short reads never reported as success, bounded self-recursion of NextPackageUntil, nil-safe use of the server's PEM key); anything else is a violation, so a new unguarded access and the removal of an existing guard are both reported. The six call sites that size an allocation from a 32-bit wire length are recorded findings. Nil dereferences and panics inside the standard library are not decided.",
          "DESIGN.md §3 C10"),
  "C17": ("E-LEN over the DSN parsers/formatters; SSA dominance rules for key lookup; E-CONST comparison of reflect.Kind case sets",
-         "Decides the totality and rejection clauses: no index or slice expression reachable from the DSN parsers can go out of range for any input string, unknown keys are rejected before anything is set, the empty string is never a key, field kinds are handled consistently, the last value of a repeated URI query key wins, a repeated name resolves alike in both modes of the tag map, FormatSimple quotes with an idiom ParseSimple inverts, and FormatURI omits a member only when its text is empty. Round-trip equality is not decided (one seeded change that collapses runs of spaces is, by design, not detected).",
+         "Decides the totality and rejection clauses: no index or slice expression reachable from the DSN parsers can go out of range for any input string, unknown keys are rejected before anything is set, the empty string is never a key, field kinds are handled consistently, the last value of a repeated URI query key wins, a repeated name resolves alike in both modes of the tag map, FormatSimple quotes with an idiom ParseSimple inverts, FormatURI omits a member only when its text is empty (also user/password), and integers are parsed back at the width they are written with. Round-trip equality is not decided (one seeded change that collapses runs of spaces is, by design, not detected).",
          "DESIGN.md §3 C17"),
  "C16": ("SSA guard dominance on the Decimal constructors and SetString; half-plane normalisation of sanity()'s guards",
-         "Decides the two rejection clauses of the property: constructors succeed only after sanity() and sanity's guards cover the complement of 0 <= scale <= precision <= 38; SetString succeeds only if the fraction fits the scale and the digits parsed, parses into a big.Int of its own (a rejected input leaves the decimal untouched), and every index/slice expression in the Decimal methods is in range for every valid precision and scale. The format/parse round trip and all digit arithmetic are value-level and are not decided (three seeded arithmetic/table changes are, by design, not detected).",
+         "Decides the two rejection clauses of the property: constructors succeed only after sanity() and sanity's guards cover the complement of 0 <= scale <= precision <= 38; SetString succeeds only if the fraction fits the scale and the digits parsed, parses into a big.Int of its own (a rejected input leaves the decimal untouched), and every index/slice expression in the Decimal methods is in range for every valid precision and scale. The format/parse round trip and all digit arithmetic are value-level and are not decided (four seeded arithmetic/table changes are, by design, not detected); no read-only method modifies the stored magnitude.",
          "DESIGN.md §3 C16"),
  "C18": ("E-OWN who-may-use rules for the id counter, the sync.Pool and the Name fields; SSA dominance and must-pass-through on Release/Acquire",
          "Decides the three structural premises from which uniqueness among holders follows together with the documented semantics of sync.Pool and atomic addition: ids are the result of a single atomic add, an id is put back at most once per holder (guarded, then cleared), and a name's text and id come from one Get with the Name fields written nowhere else. Linearizability over schedules is not explored.",
          "DESIGN.md §3 C18"),
  "C19": ("finite-domain abstract evaluation (E-ABS) of VersionRange.contains over its 64 abstract inputs against the property's table; SSA loop-exit and dominance rules on SetCapabilities, Has and the default comparer",
-         "Decides range membership completely over the finite abstraction (the inputs are used only through emptiness tests and comparer outcomes, which is itself checked), that SetCapabilities reports a capability exactly on the containing edge, ends the range loop early only for a containing range (order independence), turns inverted/zero-width ranges and comparer failures into errors, that Has defaults to false, that SetCapability records every answer, that no package-level state is consulted, and that the default comparer never answers for an unparsed version. The third-party semantic-version parser is trusted.",
+         "Decides range membership completely over the finite abstraction (the inputs are used only through emptiness tests and comparer outcomes, which is itself checked), that SetCapabilities reports a capability exactly on the containing edge, ends the range loop early only for a containing range (order independence), turns inverted/zero-width ranges and comparer failures into errors, that Has defaults to false, that SetCapability records every answer, that a containing range ends the range loop, that no package-level state is consulted, and that the default comparer never answers for an unparsed version. The third-party semantic-version parser is trusted.",
          "DESIGN.md §3 C19"),
  "C09": ("SSA taint analysis (E-TAINT, inter-procedural inside package tds, field- and container-based) with an enumerated sink whitelist; E-CONST case-set comparison; dominance rules on the OAEP call and key generation",
-         "Decides the universally quantified absence of flow: every use of the account password and of every remote-server password in package tds is enumerated and must end in rsaEncrypt's OAEP message (nonce first, SHA-1, crypto/rand), in the plain-mode password slot (dominated by config.Encrypt being none of the four encrypted ids) or in the first remote-server entry; anything else (error texts, logs, buffers, other fields) is reported with its flow path. Also decides the OAEP parameters, the 32 random bytes of the session key, agreement of pack and Login on the encrypted ids, per-iteration freshness of the parameter objects, and that no struct holding a password field is converted to an interface (rendered as a whole). Cryptographic strength is not decided.",
+         "Decides the universally quantified absence of flow: every use of the account password and of every remote-server password in package tds is enumerated and must end in rsaEncrypt's OAEP message (nonce first, SHA-1, crypto/rand), in the plain-mode password slot (dominated by config.Encrypt being none of the four encrypted ids) or in the first remote-server entry; anything else (error texts, logs, buffers, other fields) is reported with its flow path. Also decides the OAEP parameters, the 32 random bytes of the session key, agreement of pack and Login on the encrypted ids, per-iteration freshness of the parameter objects, that no struct holding a password field is converted to an interface (rendered as a whole), and that no non-rejecting branch depends on a password. Cryptographic strength is not decided.",
          "DESIGN.md §3 C09"),
  "C15": ("SSA def-use rule for io.Reader/io.Writer buffers; sibling table of the typed readers/writers; dominance rules on Bytes/AllPacketsConsumed; who-may-use rule for the live packet size",
-         "Decides the clauses of the FIFO property whose truth is in the shape of the code: Read fills and Write consumes the caller's buffer, the 21 typed readers/writers are width-consistent siblings over one never-reassigned byte order, Bytes succeeds only with n bytes, Reset clears all state, AllPacketsConsumed always depends on the packet index reaching the end of the queue, Bytes fails only when every packet is consumed, packet bodies never alias caller memory, and the live packet size only sizes new packets. The step-by-step equality with a byte-slice model over operation histories is not decided.",
+         "Decides the clauses of the FIFO property whose truth is in the shape of the code: Read fills and Write consumes the caller's buffer, the 21 typed readers/writers are width-consistent siblings over one never-reassigned byte order, Bytes succeeds only with n bytes, Reset clears all state, AllPacketsConsumed always depends on the packet index reaching the end of the queue, Bytes fails only when every packet is consumed, packet bodies never alias caller memory, WriteBytes opens a packet only when none is under the index or the current one is full, and the live packet size only sizes new packets. The step-by-step equality with a byte-slice model over operation histories is not decided.",
          "DESIGN.md §3 C15"),
  "C01": ("E-OWN who-may-use rule for the transport; SSA dominance/value-identity rules on sendPacket, sendPackets, NewPacket; must-pass-through by path enumeration",
-         "Decides structural necessary conditions of well-formed packetisation: only sendPacket writes the transport; message type stamped; EOM derived from the live packet body size exactly on short packets; header length and body trimmed together; the partial-packet test is strict, against the live body size and only for the packet being filled; sent packets are discarded on every exit (also a packet filled exactly); a flush includes the partial packet; a packet reaches the transport in one Write; the size that sizes new tx packets and the body size the send path reasons with are the one negotiated field. The zero-packet flush at exact multiples of the body size is a recorded finding. Numeric quantification over lengths and packet sizes is not decided.",
+         "Decides structural necessary conditions of well-formed packetisation: only sendPacket writes the transport; message type stamped; EOM derived from the live packet body size exactly on short packets; header length and body trimmed together; the partial-packet test is strict, against the live body size and only for the packet being filled; sent packets are discarded on every exit (also a packet filled exactly); a flush includes the partial packet; a packet reaches the transport in one Write; the size that sizes new tx packets and the body size the send path reasons with are the one negotiated field; channel id and consecutive packet numbers modulo 256 are stamped. The zero-packet flush at exact multiples of the body size is a recorded finding. Numeric quantification over lengths and packet sizes is not decided.",
          "DESIGN.md §3 C01"),
  "C02": ("SSA value-identity and path rules on the parse-or-rollback loop; freshness/E-OWN rules; completeness rules on the transport readers; E-ERR over all wire-read call sites",
-         "Decides structural necessary conditions of fragmentation independence: rollback restores exactly the position saved for the same attempt, discards only follow success, parse state is fresh per attempt, fixed-size transport reads are complete before success, packets are queued in arrival order, every body read continues where the previous one stopped, every completely received packet is routed (by its own header), NextPackageUntil polls at most for the first package, and (the parser side) every short read at any of the >210 read sites surfaces as ErrNotEnoughBytes. Equality of delivered packages over cut sets is not decided.",
+         "Decides structural necessary conditions of fragmentation independence: rollback restores exactly the position saved for the same attempt, discards only follow success, parse state is fresh per attempt, fixed-size transport reads are complete before success, packets are queued in arrival order, every body read continues where the previous one stopped, every completely received packet is routed (by its own header), the receive queue is touched by the reader goroutine only, NextPackageUntil polls at most for the first package, and (the parser side) every short read at any of the >210 read sites surfaces as ErrNotEnoughBytes. Equality of delivered packages over cut sets is not decided.",
          "DESIGN.md §3 C02"),
  "C13": ("SSA must-lockset (blocking-operation-under-lock, lock re-acquisition incl. LIFO replay of deferred calls), select-shape rules, closed-protocol dominance, must-pass-through by path enumeration",
          "Decides the structural conditions of 'never blocks, never delivers after close': every blocking receive has both Done() escapes, every send in package tds is examined (the bare sends of the reader goroutine are recorded findings, one per queue), the connection's channel-map lock is never held across a blocking operation, every channel method tests closed under the lock before touching torn-down state, Close tears down in order, packet writes are preceded by a context test, Conn.Close cancels/closes on every path, the reader is bound to the connection context, no RWMutex is re-acquired through a callee, and every forwarded context derives from the caller's. Durations and schedules are not explored.",
          "DESIGN.md §3 C13"),
  "C11": ("SSA call-site, dominance and path rules over tryParsePackage, handleSpecialPackage, the hook lists, NextPackageUntil and EEDError",
-         "Decides the structural conditions of exactly-once reporting: hooks are dispatched from one place only, after a complete parse and before delivery; environment changes and informational messages never reach the consumer; each member/message reaches the hook list once with its own values under one mutex; every callback-error return carries the collected messages and still wraps the callback's error. Histories and packetisations are not explored (retry safety is C02/C07).",
+         "Decides the structural conditions of exactly-once reporting: hooks are dispatched from one place only, after a complete parse and before delivery; environment changes and informational messages never reach the consumer; each member/message reaches the hook list once with its own values under one mutex; every callback-error return carries the collected messages and still wraps the callback's error; the hook lists are append-only; a polling NextPackageUntil waits once it has consumed a message. Histories and packetisations are not explored (retry safety is C02/C07).",
          "DESIGN.md §3 C11"),
  "C12": ("SSA must-lockset analysis (E-LOCK) with a guarded-by table; routing, stamping and registration rules by value identity; assertion satisfiability",
-         "Decides lock discipline for every access to the shared channel map, id counter, closed flag and hook slices (all access sites, exhaustively), that packets are routed to the channel named in their own header, that outgoing packets are stamped with the channel id and consecutive packet numbers modulo 256, that registration/removal use the channel's own id, that an id is reserved in one atomic step, that a packet reaches the shared transport in one Write, that no goroutine is started on the reader path, and that the set-up acknowledgement can be recognised. Interleavings are not explored; the race detector is another family.",
+         "Decides lock discipline for every access to the shared channel map, id counter, closed flag and hook slices (all access sites, exhaustively), that packets are routed to the channel named in their own header, that outgoing packets are stamped with the channel id and consecutive packet numbers modulo 256, that registration/removal use the channel's own id, that an id is reserved in one atomic step, that a packet reaches the shared transport in one Write, that no goroutine is started on the reader path, that no completely received packet is dropped silently, and that the set-up acknowledgement can be recognised. Interleavings are not explored; the race detector is another family.",
          "DESIGN.md §3 C12"),
  "C03": ("SSA guard/path rules on tryParsePackage, WritePacket, NextPackageUntil, isDoneFinal, Reset; vacuous-mask detection through constant values",
-         "Decides structural necessary conditions of response delimiting: exact, non-vacuous final-DONE tests, the path condition of the synthetic DONE(FINAL), lastPkgRx tracking every delivery, rx reset at EOM, draining on every callback-error path and in nil-callback mode, the tx reset, EOM recognised from the status bit, queued packages handed out before any context is consulted, and short reads retried instead of reported (E-ERR). Histories (what the previous response left behind) and packetisations are not explored.",
+         "Decides structural necessary conditions of response delimiting: exact, non-vacuous final-DONE tests, the path condition of the synthetic DONE(FINAL), lastPkgRx tracking every delivery, rx reset at EOM, draining on every callback-error path and in nil-callback mode, the tx reset, EOM recognised from the status bit, queued packages handed out before any context is consulted, short reads retried instead of reported (E-ERR), NextPackageUntil waiting after the first package, and the receive queue being touched by the reader goroutine only. Histories (what the previous response left behind) and packetisations are not explored.",
          "DESIGN.md §3 C03"),
  "C08": ("SSA guard dominance (E-DOM) of Login's success returns against an acceptance script written from the property statement; error, context and assertion-satisfiability rules over all of Login",
          "Decides that every success return of Login is dominated by the complete acceptance script of its flow (type assertions, status/message-id equalities, exact parameter counts, key parameter types, acknowledged key exchange, capability reply stored, final DONE), that no error on the way is ignored, that every wait (also inside the channel methods Login calls) is bound to the caller's context, that the all-zero capability test is per type, and that an unusable public key cannot cause a nil dereference. Reply histories are not explored: this is the necessary 'success only if accepted' direction on all code paths, not a simulation of servers.",
          "DESIGN.md §3 C08"),
  "C06": ("SSA wire-shape automata (E-SHAPE): writer language ⊆ reader language by product search; token table from LookupPackage's switch (go/types constants); byte-accounting and freshness rules",
-         "Decides writer/reader agreement on the sequence of field widths for every package type (per wide variant) and every field codec pair, token/type agreement with LookupPackage, acceptance of the TDS 5.0 layouts by the server-only readers, read-side byte accounting, per-iteration freshness of parse targets, the oversize guard of the login record helper, the write-side length formula of nine straight-line writers (declared length = widths written after it), the field ORDER of eight packages against the specification (same-width neighbours, also when reader and writer are changed together), and that appended slices start empty. It decides wire shape and order, not values: length fields accumulated in loops, capability bit positions and login record offsets are not covered.",
+         "Decides writer/reader agreement on the sequence of field widths for every package type (per wide variant) and every field codec pair, token/type agreement with LookupPackage, acceptance of the TDS 5.0 layouts by the server-only readers, read-side byte accounting, per-iteration freshness of parse targets, the oversize guard of the login record helper, the write-side length formula of nine straight-line writers (declared length = widths written after it), the loop-accumulated length of PARAMFMT, the field ORDER of sixteen codecs against the specification, reader/writer order agreement for every package, agreement of the two width tables of fixed-length types (same-width neighbours, also when reader and writer are changed together), and that appended slices start empty. It decides wire shape and order, not values: length fields accumulated in loops, capability bit positions and login record offsets are not covered.",
          "DESIGN.md §3 C06"),
  "C07": ("SSA error-discipline typestate (E-ERR) over every wire-read call site + dominance rules on PacketQueue.Bytes / tryParsePackage / LookupPackage",
-         "Decides, for every one of the >210 call sites into wire-reading functions (exhaustive over the current tree, floor-checked), that a short read can only surface as an error for which errors.Is(err, ErrNotEnoughBytes) holds, that PacketQueue.Bytes succeeds only when n bytes were copied, that the channel retries exactly on that error without reporting, and that each attempt parses into a fresh object with no global side effects. This is the per-site contract the property rests on; it does not decide panics (C10) or parsers that read too little.",
+         "Decides, for every one of the >210 call sites into wire-reading functions (exhaustive over the current tree, floor-checked), that a short read can only surface as an error for which errors.Is(err, ErrNotEnoughBytes) holds, that PacketQueue.Bytes succeeds only when n bytes were copied, that the channel retries exactly on that error without reporting, that each attempt parses into a fresh object with no global side effects, and that a failed attempt leaves no trace in the channel (lastPkgRx only from delivered packages, receive queue owned by the reader). This is the per-site contract the property rests on; it does not decide panics (C10) or parsers that read too little.",
          "DESIGN.md §3 C07"),
  "C14": ("SSA error-flow and path enumeration over the transport readers (PacketHeader.ReadFrom, Packet.ReadFrom, Conn.ReadFrom, NextPackage)",
-         "Decides that the error path from the transport to the consumer is unbroken and that only completely received packets reach the parser: every transport read error is tested and propagated (never success), nil/EOF-like returns of Packet.ReadFrom need a complete body on every path, loops around transport reads are bounded by context tests, Conn.ReadFrom parses if and only if err == nil or EOF and reports everything else on Conn.errCh, which NextPackage selects on; only the reader goroutine writes the error queues; the EOF wait is bounded by the read timeout from the first byte on. Crash points, delivered prefixes and time bounds are not explored.",
+         "Decides that the error path from the transport to the consumer is unbroken and that only completely received packets reach the parser: every transport read error is tested and propagated (never success), nil/EOF-like returns of Packet.ReadFrom need a complete body on every path, loops around transport reads are bounded by context tests, Conn.ReadFrom parses if and only if err == nil or EOF and reports everything else on Conn.errCh, which NextPackage selects on; only the reader goroutine writes the error queues; the EOF wait is bounded by the read timeout from the first byte on; io.EOF is recognised by errors.Is in the transport readers. Crash points, delivered prefixes and time bounds are not explored.",
          "DESIGN.md §3 C14"),
  "C20": ("constant-table extraction (go/types) + SSA dominance + map-range order-independence rule",
          "Decides statically, for every entry of the sql2ase literal and every return of ASEIsolationLevelFromGo/ToGo/String, that the forward table is the property's table, that success needs ok && != Invalid, that no map range with an early exit can be triggered by more than one entry (order dependence), and that the reverse table inverts the forward one on supported non-default levels. Exhaustive over the finite tables, hence close to the full property; printed names are delegated to database/sql.",
